@@ -1,17 +1,21 @@
 package gen
 
-// ByteMutations calls f for every string obtained from s by flipping one bit
-// of one byte (8 per position), deleting one byte, or doubling one byte.  Bit
-// flips reach the bytes that case-folding shortcuts such as `c|0x20` or
-// `c&^0x20` confuse with the expected byte ('-' and CR, '.' and SO, '6' and
-// SYN, digits and DLE..EM, letters and their other case).
+// ByteMutations calls f for every string obtained from s by replacing one
+// byte by any other byte value (255 per position), deleting one byte, or
+// doubling one byte.  The replacements reach the bytes that case-folding
+// shortcuts such as `c|0x20` or `c&^0x20` confuse with the expected byte ('-'
+// and CR, '.' and SO, '6' and SYN, digits and DLE..EM, letters and their other
+// case), bytes just outside every range check ('/' and ':', '@' and 'G', '`'
+// and 'g'), and the bytes that signed or 7-bit arithmetic confuses (c^0x80).
 func ByteMutations(s string, f func(m string)) {
 	b := []byte(s)
 	for i := range b {
 		orig := b[i]
-		for bit := 0; bit < 8; bit++ {
-			b[i] = orig ^ (1 << bit)
-			f(string(b))
+		for v := 0; v < 256; v++ {
+			if byte(v) != orig {
+				b[i] = byte(v)
+				f(string(b))
+			}
 		}
 
 		b[i] = orig
